@@ -298,7 +298,10 @@ def password_to_key(
         from a password.
     """
 
-    @lru_cache(maxsize=None)
+    # The engine-id of incoming messages is used before they are
+    # authenticated. The cache must not grow with every engine-id anybody
+    # puts into a message.
+    @lru_cache(maxsize=256)
     def hasher(password: bytes, engine_id: bytes) -> bytes:
         """
         Derive a key from a password and engine-id.
